@@ -415,3 +415,34 @@ theorem rigid_of_distinguishable {f : MeshFields} (hwf : WFP f) {t : MeshTol} {A
   exact hfix.symm
 
 end Fc.Resid
+
+namespace Fc.Resid
+open Fc Fc.C02 Fc.C02.Spec
+
+/-- decidable form of the extra hypothesis of `rigid_of_distinguishable`: `Sep ∧ Distinguishable` of the
+    mesh AS STORED (orphan points included: an orphan must not coincide with any other point) under the
+    tolerances of `f`, and the numeric slack for every cell size -/
+def storedHyp (f : MeshFields) : Bool :=
+  let t := meshTolOf f.mesh
+  pointHyp t f.mesh &&
+  (allRows f.mesh).all fun r => decide (CentreSlack (sepA t) (sepB t) (pointData (sepA t) f.mesh).M r.length)
+
+theorem storedHyp_sound {f : MeshFields} (h : storedHyp f = true) :
+    PointHypP (meshTolOf f.mesh) (sepA (meshTolOf f.mesh)) (sepB (meshTolOf f.mesh))
+      (pointData (sepA (meshTolOf f.mesh)) f.mesh).M f.mesh (pointData (sepA (meshTolOf f.mesh)) f.mesh).cands ∧
+    (∀ a ∈ pitems f.mesh, ∀ b ∈ pitems f.mesh,
+      kvec (KC (sepA (meshTolOf f.mesh)) f.mesh) f.mesh.dim 0 a = kvec (KC (sepA (meshTolOf f.mesh)) f.mesh) f.mesh.dim 0 b →
+      kvec (KM (sepA (meshTolOf f.mesh)) (pointData (sepA (meshTolOf f.mesh)) f.mesh).cands argsortStable
+          (meshTolOf f.mesh) f.mesh) f.mesh.dim 0 a =
+        kvec (KM (sepA (meshTolOf f.mesh)) (pointData (sepA (meshTolOf f.mesh)) f.mesh).cands argsortStable
+          (meshTolOf f.mesh) f.mesh) f.mesh.dim 0 b → a = b) ∧
+    (∀ r ∈ allRows f.mesh, CentreSlack (sepA (meshTolOf f.mesh)) (sepB (meshTolOf f.mesh))
+      (pointData (sepA (meshTolOf f.mesh)) f.mesh).M r.length) := by
+  unfold storedHyp at h
+  simp only [Bool.and_eq_true, List.all_eq_true, decide_eq_true_eq] at h
+  have hp := h.1
+  unfold pointHyp at hp
+  simp only [Bool.and_eq_true] at hp
+  exact ⟨pointSep_sound hp.1.2, distinguishable_sound hp.2, h.2⟩
+
+end Fc.Resid
